@@ -204,32 +204,40 @@ async fn main() -> anyhow::Result<()> {
 
 /// Verification hook (compiled only with `--cfg rip_verif`): feed frames (one JSON per line on
 /// stdin) through the three headless renderers and print what each wrote, so an external harness
-/// can check totality and determinism of `render_message` on arbitrary frame sequences.
+/// can check totality and determinism of `render_message` on arbitrary frame sequences.  A line
+/// consisting of the single byte 0x1e separates independent frame sequences (each one starts from
+/// a fresh renderer state).  Like `stream_events_with_writer`, a sequence ends at the first frame
+/// for which `render_message` asks to stop or fails.
 #[cfg(all(rip_verif, not(test)))]
 fn verif_render_stdin() -> anyhow::Result<()> {
     use std::io::BufRead;
     let lines: Vec<String> = std::io::stdin().lock().lines().collect::<Result<_, _>>()?;
     let stdout = std::io::stdout();
     let mut out = stdout.lock();
-    for view in [OutputView::Raw, OutputView::Output, OutputView::Metrics] {
-        let mut state = OutputState::default();
-        let mut buf: Vec<u8> = Vec::new();
-        let mut stopped_at: Option<usize> = None;
-        for (i, line) in lines.iter().enumerate() {
-            match render_message(view, line, &mut buf, &mut state) {
-                Ok(true) => {
-                    stopped_at = Some(i);
-                    break;
-                }
-                Ok(false) => {}
-                Err(err) => {
-                    writeln!(buf, "<<render error: {err}>>")?;
+    for (case, frames) in lines.split(|line| line == "\u{1e}").enumerate() {
+        for view in [OutputView::Raw, OutputView::Output, OutputView::Metrics] {
+            let mut state = OutputState::default();
+            let mut buf: Vec<u8> = Vec::new();
+            let mut end = String::from("exhausted");
+            for (i, line) in frames.iter().enumerate() {
+                match render_message(view, line, &mut buf, &mut state) {
+                    Ok(true) => {
+                        end = format!("stopped {i}");
+                        break;
+                    }
+                    Ok(false) => {}
+                    Err(err) => {
+                        let msg = err.to_string().replace('\n', " ");
+                        end = format!("error {i} {}", msg.len());
+                        buf.extend_from_slice(msg.as_bytes());
+                        break;
+                    }
                 }
             }
+            writeln!(out, "=== case {case} view {view:?} end {end} bytes {}", buf.len())?;
+            out.write_all(&buf)?;
+            writeln!(out)?;
         }
-        writeln!(out, "=== view {view:?} stopped_at {stopped_at:?} bytes {}", buf.len())?;
-        out.write_all(&buf)?;
-        writeln!(out)?;
     }
     Ok(())
 }
